@@ -410,7 +410,8 @@ impl UserRx {
             flushed_packets += 1;
         }
 
-        if flushed_bytes > 0 {
+        // An EOF marker has no bytes but still is something the reader is waiting for.
+        if flushed_packets > 0 {
             let waker = self.shared.locked.lock().reader_waker.take();
             if let Some(w) = waker {
                 w.wake();
